@@ -232,7 +232,9 @@ where
 
     #[inline]
     fn empty(&mut self) {
-        self.slice = &[];
+        // Keep the position: `&[]` would point outside the section, which breaks
+        // `offset_from`, `offset_id` and `lookup_offset_id` for the emptied reader.
+        self.slice = &self.slice[..0];
     }
 
     #[inline]
